@@ -42,4 +42,291 @@ theorem splitBar_cons (a rest : Str) (h : 124 ∉ a) : splitBar (a ++ 124 :: res
 theorem splitBar_single (a : Str) (h : 124 ∉ a) : splitBar a = [a] := by
   simp [splitBar, splitOn, splitOnAux_nobar a h]
 
+/-! ## texts containing `#` or `:` are not numbers -/
+
+/-- characters that can never be part of a Python number literal: `#` and `:` -/
+def junk (x : Nat) : Bool := x == 35 || x == 58
+
+theorem junk_cases {x : Nat} (h : junk x = true) : x = 35 ∨ x = 58 := by
+  simpa [junk] using h
+
+theorem stripL_mem {x : Nat} (hx : isWs x = false) : ∀ s : Str, x ∈ s → x ∈ stripL s := by
+  intro s
+  induction s with
+  | nil => intro h; cases h
+  | cons c r ih =>
+    intro h
+    simp only [stripL]
+    split
+    · rename_i hc
+      rcases List.mem_cons.1 h with e | e
+      · subst e; simp [hx] at hc
+      · exact ih e
+    · exact h
+
+theorem strip_mem {x : Nat} (hx : isWs x = false) {s : Str} (h : x ∈ s) : x ∈ strip s := by
+  unfold strip
+  have := stripL_mem hx _ (List.mem_reverse.2 (stripL_mem hx s h))
+  exact List.mem_reverse.2 this
+
+theorem signOf_mem {x : Nat} (h1 : x ≠ 43) (h2 : x ≠ 45) {s : Str} (h : x ∈ s) : x ∈ (signOf s).2 := by
+  unfold signOf
+  split
+  · rcases List.mem_cons.1 h with e | e
+    · exact absurd e h1
+    · exact e
+  · rcases List.mem_cons.1 h with e | e
+    · exact absurd e h2
+    · exact e
+  · exact h
+
+theorem digitRun_mem {x : Nat} (hx : junk x = true) : ∀ (s : Str) (b : Bool) (acc : List Nat),
+    x ∈ s → x ∈ (digitRun s b acc).2 := by
+  have hd : isDigit x = false := by rcases junk_cases hx with rfl | rfl <;> decide
+  have h95 : x ≠ 95 := by rcases junk_cases hx with rfl | rfl <;> decide
+  intro s
+  induction s with
+  | nil => intro b acc h; cases h
+  | cons c r ih =>
+    intro b acc h
+    have hr : isDigit c = true → x ∈ r := by
+      intro hc
+      rcases List.mem_cons.1 h with e | e
+      · subst e; simp [hd] at hc
+      · exact e
+    unfold digitRun
+    split
+    · rename_i hc; exact ih _ _ (hr hc)
+    · split
+      · split
+        · split
+          · rename_i hc2
+            apply ih
+            rcases List.mem_cons.1 h with e | e
+            · subst e; simp_all
+            · exact e
+          · exact h
+        · exact h
+      · exact h
+
+
+theorem junk_facts {x : Nat} (hx : junk x = true) :
+    isWs x = false ∧ isDigit x = false ∧ x ≠ 43 ∧ x ≠ 45 ∧ x ≠ 46 ∧ x ≠ 101 ∧ x ≠ 69 ∧ toLowerC x = x := by
+  rcases junk_cases hx with rfl | rfl <;> decide
+
+theorem parseInt_junk {x : Nat} (hx : junk x = true) {s : Str} (h : x ∈ s) : parseInt s = none := by
+  obtain ⟨hw, _, h43, h45, _⟩ := junk_facts hx
+  have h1 : x ∈ (signOf (strip s)).2 := signOf_mem h43 h45 (strip_mem hw h)
+  have h2 := digitRun_mem hx _ false [] h1
+  unfold parseInt
+  rcases hs : signOf (strip s) with ⟨sg, r⟩
+  rw [hs] at h2
+  rcases hd : digitRun r false [] with ⟨ds, rest⟩
+  rw [hd] at h2
+  simp only
+  cases rest with
+  | nil => cases h2
+  | cons a b => simp [hd]
+
+
+/-- the `.`-test of `parseFloat` -/
+def dotSplit : Str → Bool × Str
+  | 46 :: t => (true, t)
+  | t => (false, t)
+
+/-- the exponent part of `parseFloat` -/
+def expPart (sg : Int) (mant : Rat) : Str → FloatRes
+  | [] => .val (sg * mant)
+  | c :: t =>
+    if c == 101 || c == 69 then
+      let e := digitRun (signOf t).2 false []
+      if e.1.isEmpty || !e.2.isEmpty then .bad
+      else if digitsVal e.1 > 400 then .special
+      else .val (sg * mant * pow10 ((signOf t).1 * (digitsVal e.1 : Int)))
+    else .bad
+
+/-- `parseFloat` in stages (projections instead of destructuring lets) -/
+theorem parseFloat_eq (s : Str) : parseFloat s =
+    (let p := signOf (strip s)
+     let lw := lower p.2
+     if lw == str% "inf" || lw == str% "infinity" || lw == str% "nan" then .special
+     else
+       let d1 := digitRun p.2 false []
+       let ds := dotSplit d1.2
+       let f := if ds.1 then digitRun ds.2 false [] else ([], ds.2)
+       if d1.1.isEmpty && f.1.isEmpty then .bad
+       else expPart p.1 (((digitsVal (d1.1 ++ f.1) : Nat) : Rat) / ((10 ^ f.1.length : Nat) : Rat)) f.2) := by
+  rfl
+
+theorem dotSplit_mem {x : Nat} (h46 : x ≠ 46) {s : Str} (h : x ∈ s) : x ∈ (dotSplit s).2 := by
+  unfold dotSplit
+  split
+  · rcases List.mem_cons.1 h with e | e
+    · exact absurd e h46
+    · exact e
+  · exact h
+
+theorem expPart_junk {x : Nat} (hx : junk x = true) (sg : Int) (mant : Rat) {s : Str} (h : x ∈ s) :
+    expPart sg mant s = .bad := by
+  obtain ⟨hw, hdg, h43, h45, h46, h101, h69, hlow⟩ := junk_facts hx
+  cases s with
+  | nil => cases h
+  | cons c t =>
+    simp only [expPart]
+    split
+    · rename_i hc
+      have ht : x ∈ t := by
+        rcases List.mem_cons.1 h with e | e
+        · subst e; simp at hc; omega
+        · exact e
+      have h2 := digitRun_mem hx _ false [] (signOf_mem h43 h45 ht)
+      have : (digitRun (signOf t).2 false []).2.isEmpty = false := by
+        cases hh : (digitRun (signOf t).2 false []).2 with
+        | nil => rw [hh] at h2; cases h2
+        | cons a b => rfl
+      simp [this]
+    · rfl
+
+theorem parseFloat_junk {x : Nat} (hx : junk x = true) {s : Str} (h : x ∈ s) : parseFloat s = .bad := by
+  obtain ⟨hw, hdg, h43, h45, h46, h101, h69, hlow⟩ := junk_facts hx
+  have h1 : x ∈ (signOf (strip s)).2 := signOf_mem h43 h45 (strip_mem hw h)
+  have hlw : x ∈ lower (signOf (strip s)).2 := List.mem_map.2 ⟨x, h1, hlow⟩
+  have hsp : (lower (signOf (strip s)).2 == str% "inf" || lower (signOf (strip s)).2 == str% "infinity"
+      || lower (signOf (strip s)).2 == str% "nan") = false := by
+    rcases junk_cases hx with rfl | rfl <;>
+    · apply Bool.eq_false_iff.2
+      intro hh
+      simp only [Bool.or_eq_true, beq_iff_eq] at hh
+      rcases hh with (e | e) | e <;> (rw [e] at hlw; simp at hlw)
+  have h2 := dotSplit_mem h46 (digitRun_mem hx _ false [] h1)
+  rw [parseFloat_eq]
+  simp only [hsp, Bool.false_eq_true, if_false]
+  cases hb : (dotSplit (digitRun (signOf (strip s)).2 false []).2).1
+  · simp only [Bool.false_eq_true, if_false]
+    split
+    · rfl
+    · exact expPart_junk hx _ _ h2
+  · simp only [if_true]
+    split
+    · rfl
+    · exact expPart_junk hx _ _ (digitRun_mem hx _ false [] h2)
+
+theorem convertType_junk {x : Nat} (hx : junk x = true) {s : Str} (h : x ∈ s) : convertType s = .str := by
+  simp [convertType, parseInt_junk hx h, parseFloat_junk hx h]
+
+theorem convertType_hash {s : Str} (h : 35 ∈ s) : convertType s = .str := convertType_junk (x := 35) rfl h
+theorem convertType_colon {s : Str} (h : 58 ∈ s) : convertType s = .str := convertType_junk (x := 58) rfl h
+
+
+/-! ## cutting the `#tag` -/
+
+theorem spanP_append_stop (p : Nat → Bool) (c : Nat) (t : Str) (hc : p c = false) :
+    ∀ b : Str, (∀ x ∈ b, p x = true) → spanP p (b ++ c :: t) = (b, c :: t) := by
+  intro b
+  induction b with
+  | nil => intro _; simp [spanP, hc]
+  | cons a b ih =>
+    intro h
+    have ha : p a = true := h a (by simp)
+    have hb : ∀ x ∈ b, p x = true := fun x hx => h x (by simp [hx])
+    simp [spanP, ha, ih hb]
+
+theorem spanP_all (p : Nat → Bool) : ∀ b : Str, (∀ x ∈ b, p x = true) → spanP p b = (b, []) := by
+  intro b
+  induction b with
+  | nil => intro _; simp [spanP]
+  | cons a b ih =>
+    intro h
+    have ha : p a = true := h a (by simp)
+    have hb : ∀ x ∈ b, p x = true := fun x hx => h x (by simp [hx])
+    simp [spanP, ha, ih hb]
+
+theorem ne_of_not_mem {c : Nat} {b : Str} (h : c ∉ b) : ∀ x ∈ b, (x != c) = true := by
+  intro x hx
+  simp only [bne_iff_ne, ne_eq]
+  intro e; subst e; exact h hx
+
+theorem beforeHash_tag (b t : Str) (h : 35 ∉ b) : beforeHash (b ++ 35 :: t) = b := by
+  simp [beforeHash, spanP_append_stop (· != 35) 35 t (by simp) b (ne_of_not_mem h)]
+
+theorem contains_tag (b t : Str) : (b ++ 35 :: t).contains 35 = true := by simp
+
+theorem contains_false {c : Nat} {b : Str} (h : c ∉ b) : b.contains c = false := by simpa using h
+
+theorem startsWith_hash_tag {b : Str} (t : Str) (h : 35 ∉ b) (hne : b ≠ []) :
+    startsWith (b ++ 35 :: t) [35] = false := by
+  cases b with
+  | nil => exact absurd rfl hne
+  | cons c b =>
+    have : c ≠ 35 := by intro e; apply h; simp [e]
+    simp [startsWith, List.isPrefixOf]; omega
+
+theorem startsWith_hash_false {b : Str} (h : 35 ∉ b) : startsWith b [35] = false := by
+  cases b with
+  | nil => simp [startsWith, List.isPrefixOf]
+  | cons c b =>
+    have : c ≠ 35 := by intro e; apply h; simp [e]
+    simp [startsWith, List.isPrefixOf]; omega
+
+/-! ## `parseModMass` / `parseModComp` in two stages: tag cutting, then the body -/
+
+/-- the branch chain of `_parse_mod_mass` for a text that is not a number -/
+def massStrBody (T : Tables) (m : Str) (mono : Bool) : Except Err (Option Mass) :=
+  let lw := lower m
+  if startsWith lw (str% "glycan:") then glycanMassProforma T m mono
+  else if hasPrefix pGno m then (getMass T T.gno (stripPrefix pGno m) mono).map some
+  else if hasPrefix pXlmod m then (getMass T T.xlmod (stripPrefix pXlmod m) mono).map some
+  else if hasPrefix pResid m then (getMass T T.resid (stripPrefix pResid m) mono).map some
+  else if startsWith lw (str% "info:") then .ok none
+  else if isDbStr pPsi T.psimod m then (getMass T T.psimod (stripPrefix pPsi m) mono).map some
+  else if isDbStr pUnimod T.unimod m then (getMass T T.unimod (stripPrefix pUnimod m) mono).map some
+  else if startsWith lw (str% "formula:") then (chemMassProforma T m mono).map some
+  else if startsWith lw (str% "obs:") then (obsMassProforma m).map some
+  else .ok none
+
+/-- `_parse_mod_mass` after the tag has been cut -/
+def massBody (T : Tables) (m : Str) (mono : Bool) : Except Err (Option Mass) :=
+  match convertType m with
+  | .num n => .ok (some (some n.val))
+  | .special => .ok (some none)
+  | .str => massStrBody T m mono
+
+theorem parseModMass_eq (T : Tables) (m : Str) (mono : Bool) : parseModMass T m mono =
+    if m.contains 35 && startsWith m [35] then .ok (some (some 0))
+    else massBody T (if m.contains 35 then beforeHash m else m) mono := rfl
+
+theorem parseModMass_noTag (T : Tables) {m : Str} (mono : Bool) (h : 35 ∉ m) :
+    parseModMass T m mono = massBody T m mono := by
+  rw [parseModMass_eq]; simp [h]
+
+theorem parseModMass_str (T : Tables) {m : Str} (mono : Bool) (h : 35 ∉ m) (hc : convertType m = .str) :
+    parseModMass T m mono = massStrBody T m mono := by
+  rw [parseModMass_noTag T mono h, massBody, hc]
+
+/-- the branch chain of `_parse_mod_comp` after the tag has been cut -/
+def compStrBody (T : Tables) (m : Str) : Except Err (Option Comp) :=
+  let lw := lower m
+  if startsWith lw (str% "glycan:") then (glycanCompProforma T m).map some
+  else if hasPrefix pGno m then dbComp T.gno pGno m
+  else if hasPrefix pXlmod m then dbComp T.xlmod pXlmod m
+  else if hasPrefix pResid m then dbComp T.resid pResid m
+  else if startsWith lw (str% "info:") then .ok none
+  else if startsWith lw (str% "obs:") then .ok none
+  else if isDbStr pPsi T.psimod m then dbComp T.psimod pPsi m
+  else if isDbStr pUnimod T.unimod m then dbComp T.unimod pUnimod m
+  else if startsWith lw (str% "formula:") then (parseChem ((splitColon1 m).getD []) []).map some
+  else .ok none
+
+theorem parseModComp_eq (T : Tables) (m : Str) : parseModComp T m =
+    match convertType m with
+    | .num _ => .ok none
+    | .special => .ok none
+    | .str =>
+      if m.contains 35 && startsWith m [35] then .ok (some [])
+      else compStrBody T (if m.contains 35 then beforeHash m else m) := rfl
+
+theorem parseModComp_str (T : Tables) {m : Str} (h : 35 ∉ m) (hc : convertType m = .str) :
+    parseModComp T m = compStrBody T m := by
+  rw [parseModComp_eq, hc]; simp [h]
+
 end ModDbGeneric
